@@ -10,8 +10,17 @@
    one node).  Theorems 8 and 9 cover only the position calculus of the box factory. *)
 From Coq Require Import QArith Qabs ZArith NArith List Bool Lqa.
 Import ListNotations.
-From V Require Import Model.Val Model.Geom Gen.GeomConsts Proofs.GeomP.
+From V Require Import Model.Val Model.Geom Gen.GeomConsts Gen.GeomFns Proofs.GeomP Proofs.GeomTie.
 Open Scope Q_scope.
+
+(* ---- 0. Tie: line_intersect, Box.__vector_snap_manhattan and Box.__vector_snap_tree as translated from
+        the current source (Gen/GeomFns.v, regenerated on every run) agree with the model on all inputs *)
+Theorem translated_functions_are_model :
+  (forall p1 p2 p3 p4, res_eq (gen_line_intersect (p1, p2) (p3, p4)) (line_intersect p1 p2 p3 p4))
+  /\ (forall b p d, res_eq (gen_snap_manhattan b p d) (snap_manhattan b p d))
+  /\ (forall b p d, res_eq (gen_snap_tree b p d) (snap_tree b p d)).
+Proof. exact (conj tie_line_intersect (conj tie_snap_manhattan tie_snap_tree)). Qed.
+Print Assumptions translated_functions_are_model.
 
 (* ---- 1. Manhattan snapping: total, result on the outline — every box, point, direction, port or not *)
 Theorem snap_manhattan_on_outline : forall b p d,
